@@ -7,7 +7,7 @@ import json, itertools, sys
 IDS = ["", "C13-unuse-rebuild", "C13-use-copies-all", "C13-set-pushes-to-users", "C13-defun-not-propagated",
        "C13-fmakunbound-stale-in-users", "C13-unbind-inherited-local", "C13-unexport-inherited-flips-home",
        "C13-unbind-loses-export", "C13-export-placeholder", "C13-unbound-marker-value", "C13-single-colon-lenient",
-       "C13-conflict-loser-lost", "C13-qualified-write"]
+       "C13-conflict-loser-lost", "C13-qualified-write", "C13-use-transitive", "C13-defun-inherited-placeholder"]
 
 # universes: 0 = 2 packages, 1 variable; 1 = 2 packages, 1 function; 2 = 2 packages, variable + function;
 # 3, 4, 5 = the same with 3 packages.
@@ -94,6 +94,8 @@ WITNESS = [
     [10, 0, 4, 0, 0, 0, 0],    # A: export v -> A:v evaluates to the unbound marker object
     [11, 1, 1, 0, 0, 0, 0],    # A: defun f -> (A:f) callable from A although not exported
     [11, 0, 1, 4, 13, 0, 0],   # A: defvar v, export; B: use A -> B:v resolves
+    [14, 3, 19, 22, 17, 6, 0],  # C: defvar v, export; B: use C; A: use B -> v visible in A (use is transitive)
+    [15, 1, 3, 11, 7, 0, 0],    # A: export f; B: use A; B: defun f -> A:f stays undefined
 ]
 # [region, universe, order, state, op]: B and C define + export v, A uses both, C: unexport v -> v unbound in A
 WITNESS_STEP = [[12, 3, 0, 252, 23],
@@ -121,6 +123,144 @@ COMMON_NOTE = (
     "qualified writes in histories (they are operations of the step obligations only), p:name writes, import/shadow/intern/unintern/delete-package, "
     "classes, the Go-side Import/Define API, the reader-compile path that plants placeholder functions, same name used "
     "as variable and function, packages locked or with nicknames.")
+
+
+# ---------------------------------------------------------------------------------------------
+# extension (zz_verif_c13_ext*.go): operation table of VerifC13XHistory, mirrored from zzC13XOps
+XK = ["define", "defparameter", "setq", "unbind", "export", "unexport", "use", "unuse", "define::", "setq::", "setq:",
+      "export2", "unexport2", "use2", "unuse2"]
+
+def xops():
+    ops = []
+    for cur in range(3):
+        for k in range(4):
+            ops.append(("define", cur, k, 0))
+            if k < 2:
+                ops.append(("defparameter", cur, k, 0))
+                ops.append(("setq", cur, k, 0))
+            ops.append(("unbind", cur, k, 0))
+            ops.append(("export", cur, k, 0))
+            ops.append(("unexport", cur, k, 0))
+        for t in range(3):
+            if t != cur:
+                ops.append(("use", cur, 0, t))
+                ops.append(("unuse", cur, 0, t))
+        for t in range(3):
+            if t == cur:
+                continue
+            for k in range(4):
+                ops.append(("define::", cur, k, t))
+                if k < 2:
+                    ops.append(("setq::", cur, k, t))
+                    ops.append(("setq:", cur, k, t))
+            for k in (0, 2):
+                ops.append(("export2", cur, k, t))
+                ops.append(("unexport2", cur, k, t))
+            ops.append(("use2", cur, 0, t))
+            ops.append(("unuse2", cur, 0, t))
+    return ops
+
+XOPS = xops()
+XIDX = {op: i + 1 for i, op in enumerate(XOPS)}
+A, B, C = 0, 1, 2
+V0, V1, F2, F3 = 0, 1, 2, 3
+
+def X(kind, cur, k=0, tgt=0):
+    return XIDX[(kind, cur, k, tgt)]
+
+def xcase(init, mode, ops, pad=6):
+    return [init, mode] + list(ops) + [0] * (pad - len(ops))
+
+def xinit(b_uses_a=0, c_uses_a=0, c_uses_b=0, exports=()):
+    v = b_uses_a | c_uses_a << 1 | c_uses_b << 2
+    for p, k in exports:
+        v |= 1 << (3 + 4 * p + k)
+    return v
+
+# weights of the operation kinds when histories are sampled
+XW = {"define": 6, "defparameter": 2, "setq": 3, "unbind": 3, "export": 6, "unexport": 4, "use": 8, "unuse": 5,
+      "define::": 1, "setq::": 1, "setq:": 1, "export2": 1, "unexport2": 1, "use2": 2, "unuse2": 1}
+
+def xsample(rng, n, depth):
+    out = []
+    w = [XW[o[0]] for o in XOPS]
+    idx = list(range(1, len(XOPS) + 1))
+    for _ in range(n):
+        init = 0
+        r = rng.random()
+        if r < 0.3:
+            init = rng.randrange(1 << 15)
+        elif r < 0.6:
+            init = rng.randrange(8) | (rng.randrange(1 << 12) & rng.randrange(1 << 12)) << 3
+        out.append(xcase(init, rng.randrange(3), rng.choices(idx, weights=w, k=depth)))
+    return out
+
+# the sequences named in the lead's list (each compared after every step, in all three observer modes)
+def xseqs():
+    s = []
+    # export before defun, unexport, fmakunbound, defun again: the export status must not come back
+    s.append((0, [X("use", B, tgt=A), X("export", A, F2), X("define", A, F2), X("unexport", A, F2), X("unbind", A, F2), X("define", A, F2)]))
+    s.append((xinit(b_uses_a=1), [X("export", A, F2), X("define", A, F2), X("unexport", A, F2), X("unbind", A, F2), X("define", A, F2), X("use", C, tgt=A)]))
+    s.append((xinit(b_uses_a=1, exports=[(A, F2)]), [X("define", A, F2), X("unexport", A, F2), X("unbind", A, F2), X("define", A, F2), X("export", A, F2), X("unbind", A, F2)]))
+    # the user defines its own x first, the home package defines and exports x, use-package, home setq again, unuse
+    s.append((0, [X("define", B, V0), X("define", A, V0), X("export", A, V0), X("use", B, tgt=A), X("setq", A, V0), X("unuse", B, tgt=A)]))
+    s.append((0, [X("setq", B, V0), X("export", A, V0), X("use", B, tgt=A), X("define", A, V0), X("defparameter", A, V0), X("unuse", B, tgt=A)]))
+    s.append((0, [X("define", B, F2), X("define", A, F2), X("export", A, F2), X("use", B, tgt=A), X("define", A, F2), X("unuse", B, tgt=A)]))
+    # use, unuse, use again
+    s.append((xinit(exports=[(A, V0), (A, F2)]), [X("define", A, V0), X("define", A, F2), X("use", B, tgt=A), X("unuse", B, tgt=A), X("use", B, tgt=A), X("setq", B, V0)]))
+    s.append((0, [X("define", A, V0), X("use", B, tgt=A), X("export", A, V0), X("unuse", B, tgt=A), X("unexport", A, V0), X("use", B, tgt=A)]))
+    # two used packages export the same name: a conflict, then the winner/loser retracts
+    s.append((0, [X("define", A, V0), X("export", A, V0), X("define", B, V0), X("export", B, V0), X("use", C, tgt=A), X("use", C, tgt=B)]))
+    s.append((xinit(c_uses_a=1, c_uses_b=1), [X("define", A, F2), X("export", A, F2), X("define", B, F2), X("export", B, F2), X("unexport", B, F2), X("unexport", A, F2)]))
+    s.append((xinit(c_uses_a=1, c_uses_b=1), [X("define", A, V0), X("export", A, V0), X("define", B, V0), X("export", B, V0), X("unuse", C, tgt=B), X("unuse", C, tgt=A)]))
+    # transitive use: C uses B uses A, A's exports are not visible in C; after unexport nothing may remain
+    s.append((xinit(b_uses_a=1), [X("define", A, F2), X("export", A, F2), X("use", C, tgt=B), X("unexport", A, F2), X("define", A, F2)]))
+    s.append((xinit(b_uses_a=1, c_uses_b=1), [X("define", A, V0), X("export", A, V0), X("setq", A, V0), X("unuse", B, tgt=A), X("unexport", A, V0)]))
+    s.append((xinit(b_uses_a=1, exports=[(A, F2), (A, V0)]), [X("define", A, F2), X("define", A, V0), X("use", C, tgt=B), X("unexport", A, F2), X("unexport", A, V0), X("unuse", C, tgt=B)]))
+    # qualified writes
+    s.append((xinit(b_uses_a=1), [X("define::", B, V0, A), X("setq::", C, V0, A), X("export", A, V0), X("setq:", C, V0, A), X("setq:", C, V0, B), X("define::", C, F2, A)]))
+    out = []
+    for init, ops in s:
+        for mode in range(3):
+            out.append(xcase(init, mode, ops))
+    return out
+
+XIDS = ["", "C13-conflict-loser-lost", "C13-use-transitive", "C13-defun-inherited-placeholder",
+        "C13-single-colon-write-inherited", "C13-symbol-value-unbound-marker", "C13-fmakunbound-placeholder-not-in-users",
+        "C13-find-symbol-placeholder-shadows-own"]
+
+# witnesses of the regions of VerifC13XHistory: [region, init, mode, o1..o6]
+XWITNESS = [
+    [1] + xcase(xinit(c_uses_a=1, c_uses_b=1), 0, [X("define", A, V0), X("export", A, V0), X("define", B, V0), X("export", B, V0), X("unexport", B, V0)]),
+    [2] + xcase(xinit(b_uses_a=1), 0, [X("define", A, V0), X("export", A, V0), X("use", C, tgt=B)]),
+    [3] + xcase(xinit(b_uses_a=1, exports=[(A, F2)]), 0, [X("define", B, F2)]),
+    [4] + xcase(xinit(b_uses_a=1), 0, [X("define", A, V0), X("export", A, V0), X("setq:", C, V0, B)]),
+    [5] + xcase(0, 1, [X("export", A, V0)]),
+    [6] + xcase(xinit(b_uses_a=1), 2, [X("export", A, F2), X("define", A, F2), X("unbind", A, F2)]),
+    [7] + xcase(0, 2, [X("define", B, F2), X("define", A, F2), X("export", A, F2), X("use", B, tgt=A)]),
+]
+
+XNOTE = (
+    "EXTENSION (zz_verif_c13_ext.go). 3 packages A, B, C created by defpackage with (:use cl cl-user [A] [B]) and (:export ...) "
+    "options from the case parameter init (bit 0: B uses A, 1: C uses A, 2: C uses B, 3+4p+k: package p exports name k), 2 "
+    "variable names and 2 function names. Parameters (init, mode, o1..o6): o_i index a table of 156 operation instances: for "
+    "every package as *package* (in-package is evaluated whenever it changes): defvar/defun, defparameter, setq, makunbound/"
+    "fmakunbound, export, unexport of each name; use-package/unuse-package of each other package; (defvar p::v x)/(defun p::f () x), "
+    "(setq p::v x), (setq p:v x) for each other package p; (export 'n p), (unexport 'n p), (use-package p q), (unuse-package p q). "
+    "After the defpackage forms and after EVERY operation, with *package* set to each package, every name is resolved as plain "
+    "name, p:name and p::name for every p by the observer of the case: mode 0 evaluates the symbol / calls (name); mode 1 "
+    "(symbol-value 'n) / (funcall 'n) and for plain names also boundp / fboundp; mode 2 the symbol / (apply 'n nil) and for plain "
+    "names also the status returned by find-symbol. The outcome is compared with a reference model written from the property "
+    "statement (own symbol first, else an exported symbol of a directly used package, p:name = what p itself exports, p::name = "
+    "what is visible in p). SYMBOLIC: every value given to defvar/defparameter/setq/defun (64-bit). Operation sequences are case "
+    "parameters (concrete skeleton): the quick/thorough lists are pseudo-random samples (fixed seed, weighted towards define/"
+    "export/use) — this is sampling of the history space, each sampled history is then decided for all values by the solver. "
+    "OUT OF MODEL (case ends): writes through a name conflict, export of a merely inherited name, a present-but-unbound own "
+    "symbol shadowing an inherited one. REGIONS of open defects are computed from the model state; inside a region the exact "
+    "expectation is replaced by weak ones that are still asserted in the main run (outcome is a value or unbound; a value is "
+    "the current value of that name in some package; a function callable where it is not owned is exported by some package), "
+    "except after a write went through a damaged resolution. find-symbol of an unexported symbol that was unbound again may "
+    "report nil (slip drops the record) — accepted. ")
 
 def main():
     quick_h = [[0, 0, 0, 0, 0, 0], [1, 0, 0, 0, 0, 0]]
@@ -211,8 +351,32 @@ def main():
             entry = "VerifC13FindingStep"
         spec.append(dict(common, id="C13.finding." + IDS[r][4:], entry=entry, reach=[], carves=[IDS[r]],
                          cases={"quick": ws, "thorough": ws}, note=fnote))
+    import random
+    rng = random.Random(1313)
+    xq = xsample(rng, 120, 4) + xsample(rng, 40, 6)
+    xt = list(xq) + xsample(rng, 1500, 5) + xsample(rng, 1500, 6)
+    xs = xseqs()
+    xcommon = dict(common, assumptions=["resolving a name has no side effect on the package tables is NOT assumed here: every case compares after every step"])
     spec += [
+        dict(xcommon, id="C13.x.history", entry="VerifC13XHistory", reach=["compared"],
+             cases={"quick": xq, "thorough": xt},
+             note="sampled histories: quick 120 of length 4 and 40 of length 6, thorough additionally 1500 of length 5 and 1500 of "
+                  "length 6. " + XNOTE),
+        dict(xcommon, id="C13.x.seq", entry="VerifC13XHistory", reach=["compared"],
+             cases={"quick": xs, "thorough": xs},
+             note="hand-picked sequences of 5-6 operations the step/history obligations cannot reach, each in the three observer "
+                  "modes: export before defun, unexport, fmakunbound, defun again (the export status must not come back), with the "
+                  "user attached before or after; a user that defines its own name first, then the home package defines and exports "
+                  "it, use-package, the home package sets it again, unuse-package (the user's own binding survives with its value); "
+                  "use, unuse, use again; two used packages exporting the same name, then one retracts; transitive use (C uses B "
+                  "uses A: A's exports are not visible in C; after unexport nothing of it is callable); qualified writes. " + XNOTE),
     ]
+    for r in range(1, len(XIDS)):
+        ws = [w for w in XWITNESS if w[0] == r]
+        spec.append(dict(xcommon, id="C13.x.finding." + XIDS[r][4:], entry="VerifC13XFinding", reach=[], carves=[XIDS[r]],
+                         cases={"quick": ws, "thorough": ws},
+                         note="witness history of one open defect as seen by VerifC13XHistory, parameters (region, init, mode, o1..o6): only "
+                              "the exact expectations inside that region are asserted, behind vrt.Carve(id, true). " + XNOTE))
     out = sys.argv[1] if len(sys.argv) > 1 else "/verif/harness/obligations.d/C13.json"
     json.dump(spec, open(out, "w"), separators=(",", ":"))
     for s in spec:
